@@ -230,7 +230,7 @@ def check_transition_fn(ctx, numbase=2):
 def check_writers(ctx, num=3):
     P = ctx.P
     from ..util import private_closure
-    allowed = {f"{RS}::PipelineRuntimeStatus.__init__"} | {f"{RS}::{q}" for q in private_closure(P, P.fn(RS, "PipelineRuntimeStatus.transition"))}
+    allowed = {f"{RS}::PipelineRuntimeStatus.__init__"} | {f"{RS}::{q}" for q in private_closure(P, P.fn(RS, "PipelineRuntimeStatus.transition", raw=True))}
     for attr in ("operator_states", "state_counts"):
         ws = attr_writes(P, attr)
         dyn = [w for w in ws if w.how == "dynamic"]
@@ -262,6 +262,9 @@ def check_counts_init(ctx, num=3):
             ok0 = {state_of(k) for k in v.keys} == set(read_enum_members(P, RS, "OperatorState"))
         elif isinstance(v, ast.Call) and norm.call_name(v) in ("defaultdict", "Counter") and (not v.args or norm.U(v.args[0]) == "int"):
             ok0 = True
+        elif isinstance(v, ast.Call) and norm.U(v.func) == "dict.fromkeys" and len(v.args) == 2 and norm.U(v.args[0]) == "OperatorState" \
+                and isinstance(v.args[1], ast.Constant) and v.args[1].value == 0 and not isinstance(v.args[1].value, bool):
+            ok0 = True
     ctx.ob(num, "K5", "every per-state count starts at 0", ok0, ini, cdef[0] if cdef else ini.node, construct="state_counts = {state: 0 for state in OperatorState}", detail=d)
     stores = [n for n in own_nodes(ini.node) if isinstance(n, ast.Assign) and any(isinstance(t, ast.Subscript) and self_attr(t.value, "operator_states") for t in n.targets)]
     incs = [n for n in own_nodes(ini.node) if isinstance(n, ast.AugAssign) and isinstance(n.target, ast.Subscript) and self_attr(n.target.value, "state_counts")]
@@ -270,8 +273,11 @@ def check_counts_init(ctx, num=3):
     if ok:
         st, inc = stores[0], incs[0]
         lp = enclosing_for(st, ini.node)
+        from ..util import single_defs as _sd
+        env_ = _sd(ini)
+        s_inc, s_st = state_of(norm.subst(inc.target.slice, env_)), state_of(norm.subst(st.value, env_))
         ok = isinstance(inc.op, ast.Add) and isinstance(inc.value, ast.Constant) and inc.value.value == 1 and not isinstance(inc.value.value, bool) \
-            and state_of(inc.target.slice) is not None and state_of(inc.target.slice) == state_of(st.value) and lp is not None and enclosing_for(inc, ini.node) is lp \
+            and s_inc is not None and s_inc == s_st and lp is not None and enclosing_for(inc, ini.node) is lp \
             and g.control_equivalent(st, inc, lp)
         d += f"; same state, +1, once per operator together with the store: {ok}"
     ctx.ob(num, "K3", "the count of the initial state grows by one for every operator registered (counts and per-operator states start consistent)", ok, ini,
@@ -527,7 +533,7 @@ def check_transition_sites(ctx, num=8):
         allowed[st] = set()
         for rel, q in sites:
             try:
-                allowed[st] |= {(rel, x) for x in private_closure(P, P.fn(rel, q))}
+                allowed[st] |= {(rel, x) for x in private_closure(P, P.fn(rel, q, raw=True))}
             except AnalysisError:
                 allowed[st].add((rel, q))
     n = 0
